@@ -1,7 +1,7 @@
 # memfault-copycols-after-clear (family exhaustive): asan
 salloc 0 2 2
 salloc 1 2 2
-sins 0 0 1
+sins 0 1 1
 scopy 0 1
 scopycols 1 0 2 1 1
 sfree 0
